@@ -283,17 +283,16 @@ theorem c02_npm_deviation_stacked_v :
 theorem c02_npm_build_ignored :
     npmVerdict "1.2.3".toList "1.2.3+b".toList = some true ∧ refNpm "1.2.3".toList "1.2.3+b".toList = some true ∧
     npmVerdict "<=1.2.3".toList "1.2.3+b".toList = some true ∧ cratesVerdict "=1.2.3".toList "1.2.3+b".toList = some true := by decide
-/-! F-C02-4: crates, same root cause -/
-theorem c02_crates_deviation_tilde_major :
-    cratesVerdict "~1".toList "1.5.0".toList = some false ∧ refCrates "~1".toList "1.5.0".toList = some true := by decide
-theorem c02_crates_deviation_eq_partial :
-    cratesVerdict "=1.2".toList "1.2.5".toList = some false ∧ refCrates "=1.2".toList "1.2.5".toList = some true := by decide
-theorem c02_crates_deviation_gt_partial :
-    cratesVerdict ">1".toList "1.0.1".toList = some true ∧ refCrates ">1".toList "1.0.1".toList = some false := by decide
-theorem c02_crates_deviation_caret_zero :
-    cratesVerdict "^0".toList "0.5.0".toList = some false ∧ refCrates "^0".toList "0.5.0".toList = some true := by decide
-theorem c02_crates_deviation_bare_zero_zero :
-    cratesVerdict "0.0".toList "0.0.5".toList = some false ∧ refCrates "0.0".toList "0.0.5".toList = some true := by decide
+/-! F-C02-4 (repaired for partial versions, F-C02-11): Cargo reads a partial version as the versions that start with
+    these numbers; what is left of F-C02-4 are spellings the code accepts although Cargo rejects them -/
+theorem c02_crates_partial :
+    cratesVerdict "~1".toList "1.5.0".toList = some true ∧ refCrates "~1".toList "1.5.0".toList = some true ∧
+    cratesVerdict "=1.2".toList "1.2.5".toList = some true ∧ refCrates "=1.2".toList "1.2.5".toList = some true ∧
+    cratesVerdict ">1".toList "1.0.1".toList = some false ∧ refCrates ">1".toList "1.0.1".toList = some false ∧
+    cratesVerdict "^0".toList "0.5.0".toList = some true ∧ refCrates "^0".toList "0.5.0".toList = some true ∧
+    cratesVerdict "0.0".toList "0.0.5".toList = some true ∧ refCrates "0.0".toList "0.0.5".toList = some true := by decide
+theorem c02_crates_deviation_stacked :
+    cratesVerdict "^^1.2.3".toList "1.2.3".toList = some true ∧ refCrates "^^1.2.3".toList "1.2.3".toList = none := by decide
 
 /-- hence the full statements are false on the pinned tree -/
 theorem c02_npm_full_false : ¬ c02_npm_full := fun h => by
@@ -301,8 +300,8 @@ theorem c02_npm_full_false : ¬ c02_npm_full := fun h => by
   rw [c02_npm_deviation_bare_zero.1, c02_npm_deviation_bare_zero.2] at this
   cases this
 theorem c02_crates_full_false : ¬ c02_crates_full := fun h => by
-  have := h "~1".toList "1.5.0".toList (by decide)
-  rw [c02_crates_deviation_tilde_major.1, c02_crates_deviation_tilde_major.2] at this
+  have := h "^^1.2.3".toList "1.2.3".toList (by decide)
+  rw [c02_crates_deviation_stacked.1, c02_crates_deviation_stacked.2] at this
   cases this
 
 /-! the fragment is inhabited and the code is right on these members (non-vacuity) -/
